@@ -55,6 +55,10 @@ func Analyze(s *core.Spec) (*SpecAnalysis, error) {
 
 	// Delve into each node, akin to inspecting every component of a pencil, from its wood to the graphite core.
 	for name, n := range s.Nodes {
+		if n == nil {
+			// As Compile does: a null node is an empty node.
+			n = &core.Node{}
+		}
 		// Actions are deliberate steps, like the precise cutting of wood or molding of graphite.
 		if n.Action != nil || n.ActionSource != nil {
 			a.Actions++
